@@ -242,7 +242,11 @@ def r03_1(ctx) -> None:
                 if not contract and _is_internal(outer):
                     # a private factory working on behalf of by-contract operation(s) only
                     from .common import callers_of
-                    users = callers_of(ctx, outer)
+                    users = []
+                    for v in callers_of(ctx, outer):
+                        while v.parent is not None:
+                            v = v.parent  # (called from a nested wrapper: its enclosing definition carries the contract)
+                        users.append(v)
                     if users and all(BY_CONTRACT.get(ctx.pkg.canonical(v)) for v in users):
                         contract = BY_CONTRACT[ctx.pkg.canonical(users[0])] + f" (through the private helper {outer.short})"
                 if contract:
@@ -870,6 +874,9 @@ def _aclose_guard(ctx, u, cfg, n, recv, v, find_path, abstract_values) -> str:
                     if _built_from_guarded_appends(ctx, init, st, find_path):
                         return f"elements of self.{tg.attr} are appended only after an isinstance/hasattr test for aclose"
     # g5: a field of a class that is only constructed under a hasattr(x, "aclose") guard
+    if isinstance(recv, ast.Name):
+        from .common import inline_locals
+        recv = inline_locals(ctx, u, cfg, n, recv)  # (``iterator = self._iterator; await iterator.aclose()``)
     if isinstance(recv, ast.Attribute) and norm(recv.value) == "self" and u.cls is not None:
         sites = 0
         guarded = 0
